@@ -13,6 +13,15 @@ def P(src, variant, name, args=None, tiers=('quick', 'thorough'), tier_args=None
 
 
 CHECKS = {
+    'C15': {
+        'engine': 'langx',
+        'rule': 'exhaustive pairs/triples of small strings and values; all small arrays through every sort',
+        'parts': [
+            P('props/C15.cpp', 'asan', 'order-asan'),
+            P('props/C15.cpp', 'fast', 'order-fast'),
+        ],
+        'floor': {'quick': 1000, 'thorough': 1000},
+    },
     'C13': {
         'engine': 'seqx',
         'rule': 'hash array operation histories vs ordered-map model + structural invariants',
